@@ -1214,7 +1214,12 @@ func (dsc *dataStoreCommand) lpop(keyName string, count int) (values [][]byte, e
 		return
 	}
 
-	values = make([][]byte, 0, count)
+	if count > list.count {
+		// the count is client input: never allocate more than the list can give
+		values = make([][]byte, 0, list.count)
+	} else {
+		values = make([][]byte, 0, count)
+	}
 
 	for ; count > 0; count-- {
 		item := list.head
@@ -1319,7 +1324,11 @@ func (dsc *dataStoreCommand) rpop(keyName string, count int) (values [][]byte, e
 		return
 	}
 
-	values = make([][]byte, 0, count)
+	if count > list.count {
+		values = make([][]byte, 0, list.count)
+	} else {
+		values = make([][]byte, 0, count)
+	}
 
 	for ; count > 0; count-- {
 		item := list.tail
